@@ -127,5 +127,10 @@ func (s *CLSignature) Randomize(pk *gabikeys.PublicKey) (*CLSignature, error) {
 	APrime.Mod(APrime, pk.N)
 	t := new(big.Int).Mul(s.E, r)
 	VPrime := new(big.Int).Sub(s.V, t)
-	return &CLSignature{A: APrime, E: new(big.Int).Set(s.E), V: VPrime}, nil
+	randomized := &CLSignature{A: APrime, E: new(big.Int).Set(s.E), V: VPrime}
+	if s.KeyshareP != nil {
+		// the keyshare contribution belongs to the signature: without it the result does not verify
+		randomized.KeyshareP = new(big.Int).Set(s.KeyshareP)
+	}
+	return randomized, nil
 }
